@@ -512,6 +512,10 @@ impl<'a> Gen<'a> {
     fn float_expr(&mut self, depth: usize, leaf: bool) -> Expr {
         let lit = |g: &mut Gen| -> Expr {
             let f = *g.r.pick(&[0.0, 1.0, 0.5, 2.5, 3.1415, 100.25, 1e10, 0.1, 1e-3, 12345.678]);
+            // now and then a negated literal (`-0.0` is a value of its own)
+            if g.r.chance(1, 8) {
+                return prefix(Op::Subtract, Expr::Float(f));
+            }
             Expr::Float(f)
         };
         if leaf {
@@ -768,6 +772,12 @@ impl<'a> Gen<'a> {
             let e = self.expr(ret, 1);
             if self.r.chance(1, 3) {
                 body.push(Stmt::Return(e));
+                if self.r.chance(1, 5) {
+                    // dead code after the final antwoord
+                    body.push(Stmt::Expr(self.print_call(2)));
+                    let dead = self.expr(ret, 2);
+                    body.push(Stmt::Expr(dead));
+                }
             } else {
                 body.push(Stmt::Expr(e));
             }
@@ -826,13 +836,27 @@ impl<'a> Gen<'a> {
                     cons.push(Stmt::Expr(self.print_call(depth + 1)));
                 }
                 cons.push(s);
+                // statements after the exit, in the same block: never executed, but compiled and checked like any other
+                if self.r.chance(1, 4) {
+                    cons.push(Stmt::Expr(self.print_call(depth + 1)));
+                    if self.r.chance(1, 2) {
+                        cons.push(Stmt::Expr(self.expr(&Ty::Int, depth + 1)));
+                    }
+                }
                 Some(Stmt::Expr(Expr::If { cond: Box::new(c), cons, alt: None }))
             }
             10 if self.in_function() => {
                 let ret = self.ctxs.last().unwrap().ret.clone().unwrap_or(Ty::Int);
                 let c = self.expr(&Ty::Bool, depth + 1);
                 let e = self.expr(&ret, depth + 1);
-                Some(Stmt::Expr(Expr::If { cond: Box::new(c), cons: vec![Stmt::Return(e)], alt: None }))
+                let mut cons = vec![Stmt::Return(e)];
+                if self.r.chance(1, 4) {
+                    cons.push(Stmt::Expr(self.print_call(depth + 1)));
+                    if self.r.chance(1, 2) {
+                        cons.push(Stmt::Expr(self.expr(&Ty::Int, depth + 1)));
+                    }
+                }
+                Some(Stmt::Expr(Expr::If { cond: Box::new(c), cons, alt: None }))
             }
             _ => {
                 // expression statement: a call with effects or any expression (its value becomes the
